@@ -71,6 +71,19 @@ func rulesC09(c *Ctx) {
 				c.Check(exact, "scanEvents:end-of-input-is-io.EOF-only", body, w.Stmt, "end of input is recognised as errors.Is(err, io.EOF) exactly (got %s): a torn connection (unexpected EOF, reset) is a read error, not the end of the stream, and must not flush a half-received event", exprStr(w.RHS))
 			}
 		}
+		// whatever shape the loop has: the read error is compared with io.EOF and with no other sentinel (a test against
+		// io.ErrUnexpectedEOF, net.ErrClosed, … is how a torn connection gets treated as the end of the stream)
+		if errVar != nil {
+			ast.Inspect(body.Body, func(n ast.Node) bool {
+				if ce, ok := n.(*ast.CallExpr); ok && body.IsCallTo(ce, errIs) && len(ce.Args) == 2 && body.ObjOf(ce.Args[0]) == errVar {
+					c.Check(body.ObjOf(ce.Args[1]) == ioEOF, "scanEvents:read-error-compared-with-io.EOF-only", body, ce, "the read error is tested against io.EOF only (got %s): any other read error is a broken stream, not its end, and must not flush a half-received event", exprStr(ce.Args[1]))
+				}
+				if x, y, op, ok := binaryCmp2(n); ok && (op == token.EQL || op == token.NEQ) && body.ObjOf(x) == errVar && !isNilIdent(y) {
+					c.Check(body.ObjOf(y) == ioEOF, "scanEvents:read-error-compared-with-io.EOF-only", body, n, "the read error is compared with io.EOF only (got %s)", exprStr(y))
+				}
+				return true
+			})
+		}
 		c.Need(isEOF != nil && lineVar != nil && errVar != nil, "scanEvents: line, err, isEOF")
 		// read errors other than EOF are yielded as errors and end the iteration
 		// decided by evaluating the branch conditions under "err is non-nil and is not io.EOF": whatever is reachable then
